@@ -1,5 +1,5 @@
 From Coq Require Import List NArith Extraction ExtrOcamlBasic.
 From DDP Require Import Alias.OMap Alias.Trie Alias.TokKey Alias.Select Alias.Overload.
 Extraction Language OCaml.
-Extraction "c09_model.ml" select select_from candidates declare declare_all isort alias_less check_ok matches end_of
+Extraction "c09_model.ml" a_generic select select_from candidates declare declare_all isort alias_less check_ok matches end_of
   expand_marker insert_overload find_overload tok_eq tok_less.
